@@ -18,9 +18,9 @@ def spotAttrs (md : List Feat) (s : Spot) : Attrs :=
     | .ok a => a
     | .exc _ => []
   match s.roi with
-  | some r => aset a "ROI_coords" (match r.pts with
-    | some p => .roi p
-    | none => .none)
+  | some r => (match r.pts with
+    | some p => aset a "ROI_coords" (.roi p)
+    | none => a)
   | none => a
 
 /-- what makes one `Spot` element well-formed for `_add_all_nodes` -/
